@@ -310,12 +310,22 @@ func AfterFuncAt(site string, d time.Duration, f func()) *time.Timer {
 	if w == nil {
 		return time.AfterFunc(d, f)
 	}
+	// The task (id, name) is reserved now, by the arming task, which runs under the
+	// scheduler: when several timers fire at the same virtual instant their
+	// callbacks start outside the scheduler's control, and ids or names handed
+	// out in arrival order would not be reproducible.
+	w.mu.Lock()
+	t := &Task{ID: w.nextID, Name: w.taskName("timer:" + site), Owned: true, wake: make(chan struct{}), state: stExited}
+	t.key = "T:" + t.Name
+	w.nextID++
+	w.mu.Unlock()
 	return time.AfterFunc(d, func() {
 		if w.stopping {
 			return
 		}
 		w.mu.Lock()
-		t := w.newTask(w.taskName("timer:"+site), true)
+		t.state = stRunning
+		w.all = append(w.all, t)
 		w.mu.Unlock()
 		w.runTask(t, "timer:"+site, f)
 	})
